@@ -9,6 +9,7 @@
 (e) reservation thresholds
 (g) stale-tolerant head-of-line tests in the decompressor's ready predicates
 """
+import os
 import cfg, conc, schedlaws, balance
 from irdb import broken
 from prov import Prov, addr_key, strip_ext, strip_casts, render, poly, path_key
@@ -31,6 +32,7 @@ def run(ctx):
     stale_head(ctx, prog, A)
     predicates(ctx, prog, A)
     reader_announces_eof(ctx, prog, A)
+    ring_rule(ctx, prog)
 
 
 # ------------------------------------------------------------------ (a)
@@ -155,9 +157,11 @@ def _cycle(edges):
 
 
 # ------------------------------------------------------------------ (b)
-def r3(ctx, prog, A, kinds=('token',), rule='R3.token'):
+def r3(ctx, prog, A, kinds=('token',), rule='R3.token', only_modes=None, floor=30):
     total = 0
     for mode in sorted(A.engine.modes):
+        if only_modes is not None and not any(x in str(mode) for x in only_modes):
+            continue
         ml = schedlaws.ModeLaws(prog, A, mode, kinds=('token', 'object'))
         names = set(schedlaws.MODES[mode][kinds[0]]) if len(kinds) == 1 else None
         total += ml.check(ctx, rule, only_laws=names)
@@ -167,8 +171,11 @@ def r3(ctx, prog, A, kinds=('token',), rule='R3.token'):
             if key not in known:
                 broken('queue %s is modified in %s (%s) but belongs to no conservation law' % (key, f.name, f.loc(ins)))
         for ck, f, ins in ml.unknown_effects():
-            broken('allocation/release class %s at %s belongs to no conservation law' % (ck, f.loc(ins)))
-    ctx.floor('law obligations', total, 30)
+            # an object created or released at a site no law accounts for: the token tied to it (input slot, work
+            # unit, output slot) cannot be shown to be taken or given back there
+            ctx.ob(rule, 'allocation/release class %s [%s] is accounted for by a conservation law' % (ck, mode), f.loc(ins),
+                   False, 'objects of this class are created or released here outside the sites the token laws know')
+    ctx.floor('law obligations', total, floor)
 
 
 # ------------------------------------------------------------------ (c)
@@ -775,3 +782,141 @@ def predicates(ctx, prog, A):
         ctx.ob('C11.predicate', '%s can_terminate(): true only at end of input with every work unit and output slot '
                'returned' % unit, f.loc(), bool(rows) and any(v for v, _ in rows) and not bad, '; '.join(sorted(set(bad))),
                evals=len(rows))
+
+
+# ------------------------------------------------------------------ ring arithmetic of the deques
+def ring_rule(ctx, prog, pfx='C11'):
+    """deque(T) objects are rings addressed by `head` modulo `modulus`: every new value of `head` stays below
+    `modulus` and is the old one moved by exactly one position (the same direction at a site), and every index into
+    `root` computed from head/size stays below `modulus` -- tabulated from the IR (32-bit arithmetic as compiled,
+    the wrap-around trick of min() included) for all heads of several moduli.  A head that leaves the ring makes
+    the order queue lose or duplicate an entry: the writer stalls or blocks are dropped."""
+    from frag import Frag, Unknown, Ptr as FPtr
+    from prov import Prov, addr_key
+    MODS = (1, 2, 3, 5, 17, 34)
+    sites = idx_sites = 0
+    for f in prog.all_funcs():
+        if f.module.unit not in ('expand', 'compress', 'process'):
+            continue
+        P = Prov(prog, f)
+        loads = {}
+        for i in f.insns():
+            if i.op == 'load':
+                k = str(addr_key(P.addr(i.ops[0])))
+                if k.startswith('G:') and k.rsplit('.', 1)[-1] in ('head', 'size', 'modulus'):
+                    loads[id(i)] = (i, k)
+        for st in f.insns():
+            target = None
+            if st.op == 'store':
+                k = str(addr_key(P.addr(st.ops[1])))
+                if k.startswith('G:') and k.endswith('.head'):
+                    target = ('head', k[:-5], st.ops[0])
+            elif st.op == 'getelementptr' and len(st.ops) == 2:
+                be = P.expr(st.ops[0])
+                if be[0] == 'load':
+                    bk = str(addr_key(be[1]))
+                    if bk.startswith('G:') and bk.endswith('.root'):
+                        target = ('index', bk[:-5], st.ops[1])
+            if target is None:
+                continue
+            kind, q, valop = target
+            lv = P.leaves(P.expr(valop))
+            if not any(x[0] == 'load' and str(x[1]) == q + '.head' for x in lv):
+                continue            # initialisation, or an index that does not involve the ring position
+            # the earliest load of a field of q in this block chain that the value depends on
+            qloads = [i for i, k in loads.values() if k.startswith(q + '.') and i.block is st.block and i.idx < st.idx]
+            starts = [i for i in qloads]
+            pre = st.block
+            # the min() trick branches: walk back through single-predecessor blocks
+            chain = [st.block]
+            while not starts and len(chain[-1].preds) >= 1 and len(chain) < 8:
+                ps = chain[-1].preds
+                doms = cfg.dominators(f)
+                cands = [p for p in ps if p in doms[st.block.name]]
+                if not cands:
+                    # join of the two arms of min(): continue from their common dominator
+                    common = set.intersection(*[doms[p] for p in ps]) if ps else set()
+                    common = [b for b in common if b != chain[-1].name]
+                    if not common:
+                        break
+                    # the closest common dominator
+                    best = max(common, key=lambda b: len(doms[b]))
+                    chain.append(f.blocks[best])
+                else:
+                    chain.append(f.blocks[cands[0]])
+                more = [i for i, k in loads.values() if k.startswith(q + '.') and i.block is chain[-1]]
+                if more:
+                    starts = more
+                    pre = chain[-1]
+                    break
+                if starts:
+                    break
+            if not starts:
+                continue
+            first = min(starts, key=lambda i: i.idx)
+            bad = []
+            evald = 0
+            skipped = False
+            for m in MODS:
+                direction = None
+                for h in range(m):
+                    for s in ((0,) if kind == 'head' else tuple(sorted({0, 1, m // 2, max(m - 1, 0), m}))):
+                        def oracle(key, ins, h=h, m=m, s=s):
+                            root, path = key
+                            if root[0] == 'G' and root[1] == q.split(':')[-1] and len(path) == 1:
+                                if path[0] == 'head':
+                                    return h
+                                if path[0] == 'modulus':
+                                    return m
+                                if path[0] == 'size':
+                                    return s
+                                if path[0] == 'root':
+                                    return FPtr(('ring', q))
+                            if root[0] == 'A':
+                                return 0        # contents of a local being copied into the ring: irrelevant here
+                            raise Unknown('load of %r' % (key,))
+                        fr = Frag(prog, f, oracle=oracle, max_steps=400)
+                        try:
+                            fr.run(first.block.name, first.idx, stop=lambda ins, _fr: ins is st)
+                            r = fr.val(valop)
+                        except Unknown as e:
+                            skipped = True
+                            if os.environ.get('VERIF_DEBUG_RING'):
+                                print('ring: skipped', f.name, f.loc(st), kind, e)
+                            break
+                        if isinstance(r, FPtr):
+                            skipped = True
+                            break
+                        ns = fr.mem.get((('G', q.split(':')[-1]), ('size',)))
+                        if isinstance(ns, int) and not (0 <= (ns & 0xFFFFFFFF) <= m):
+                            continue        # outside the macro's precondition (push on a full / pop on an empty ring)
+                        r &= 0xFFFFFFFF if kind == 'head' else (1 << 64) - 1
+                        evald += 1
+                        if not (0 <= r < m):
+                            bad.append('modulus %d, head %d%s: %s becomes %d' % (m, h, '' if kind == 'head' else
+                                                                              ', size %d' % s, kind, r))
+                        elif kind == 'head':
+                            d = (r - h) % m
+                            if m > 2:
+                                if d not in (1, m - 1):
+                                    bad.append('modulus %d, head %d: head becomes %d (not a neighbour)' % (m, h, r))
+                                elif direction is None:
+                                    direction = d
+                                elif d != direction:
+                                    bad.append('modulus %d: head moves in both directions at one site' % m)
+                    if skipped:
+                        break
+                if skipped:
+                    break
+            if skipped and not bad:
+                continue
+            if kind == 'head':
+                sites += 1
+            else:
+                idx_sites += 1
+            ctx.ob(pfx + '.ring', ('%s(): the new head of %s stays in the ring and moves by one position'
+                                   if kind == 'head' else '%s(): the index into %s.root computed from head/size stays '
+                                   'below modulus') % (f.name, q[2:]), f.loc(st), not bad, '; '.join(bad[:3]) or
+                   '%d (modulus, head%s) cases' % (evald, '' if kind == 'head' else ', size'), evals=max(evald, 1))
+    ctx.floor(pfx + ' deque head updates tabulated', sites, 2)
+    ctx.floor(pfx + ' deque index computations tabulated', idx_sites, 2)
